@@ -141,7 +141,7 @@ func check(c *Case) []fail {
 		o, pk, hang := w.getPath(c, m, root, vl.UnHex(c.GP))
 		pan("GetPath/PathInMask", pk)
 		if hang {
-			fs = append(fs, fail{"hang:getpath-backslash-under-all", "GetPath/PathInMask does not terminate (a backslash token never advances the iterator and the loop `continue`s when the mask node is 'all')", "a result", "no return within 150 ms of CPU time"})
+			fs = append(fs, fail{"hang:getpath-backslash-under-all", "GetPath/PathInMask does not terminate (a backslash token never advances the iterator and the loop `continue`s when the mask node is 'all')", "a result", "no return within 300 ms of CPU time (twice)"})
 		}
 		if o == "pathinmask-differs" {
 			fs = append(fs, fail{"pim:differs-from-getpath", "PathInMask and GetPath disagree", "equal", "different"})
